@@ -89,14 +89,15 @@ type Lemma struct {
 }
 
 type ContractDB struct {
-	byFn     map[*ssa.Function]*Contract
-	byKey    map[string]*Contract
-	lemmas   []*Lemma
-	files    map[*packages.Package]*ast.File // contract file per package
-	errors   []string
-	fset     *token.FileSet
-	sweeps   map[*packages.Package]*sweepSpec
-	typeInvs map[string][]typeInv // "pkgpath.TypeName" -> invariants
+	byFn       map[*ssa.Function]*Contract
+	byKey      map[string]*Contract
+	lemmas     []*Lemma
+	files      map[*packages.Package]*ast.File // contract file per package
+	errors     []string
+	fset       *token.FileSet
+	sweeps     map[*packages.Package]*sweepSpec
+	typeInvs   map[string][]typeInv // "pkgpath.TypeName" -> invariants
+	frameProps map[string][]string  // heap array key -> extra properties of its frame obligations
 }
 
 type typeInv struct {
@@ -135,7 +136,7 @@ func parseClauseHead(rest string) (props []string, label, text string) {
 }
 
 func loadContracts(prog *ssa.Program, pkgs []*packages.Package) *ContractDB {
-	db := &ContractDB{byFn: map[*ssa.Function]*Contract{}, byKey: map[string]*Contract{}, files: map[*packages.Package]*ast.File{}, fset: prog.Fset, sweeps: map[*packages.Package]*sweepSpec{}, typeInvs: map[string][]typeInv{}}
+	db := &ContractDB{byFn: map[*ssa.Function]*Contract{}, byKey: map[string]*Contract{}, files: map[*packages.Package]*ast.File{}, fset: prog.Fset, sweeps: map[*packages.Package]*sweepSpec{}, typeInvs: map[string][]typeInv{}, frameProps: map[string][]string{}}
 	for _, pkg := range pkgs {
 		for i, f := range pkg.Syntax {
 			name := pkg.CompiledGoFiles[i]
@@ -212,6 +213,13 @@ func (db *ContractDB) parseFile(prog *ssa.Program, pkg *packages.Package, f *ast
 				props, label, text := parseClauseHead(strings.TrimSpace(r2))
 				key := pkg.PkgPath + "." + strings.TrimSuffix(tn, ":")
 				db.typeInvs[key] = append(db.typeInvs[key], typeInv{label: label, text: text, props: props, line: where})
+			case "frameprops":
+				// frameprops Type.field C14 C01: further properties that rest on
+				// this field being left as it was found (frame obligations)
+				fs := strings.Fields(rest)
+				if len(fs) >= 2 {
+					db.frameProps["H:"+pkg.PkgPath+"."+fs[0]] = append(db.frameProps["H:"+pkg.PkgPath+"."+fs[0]], fs[1:]...)
+				}
 			case "sweep":
 				// sweep safety C05 [exclude a,b]
 				spec := &sweepSpec{}
